@@ -40,7 +40,8 @@ CHECKS = {
          "DESIGN.md 3/C15"),
  "C11": ("model_checking",
          "explicit enumeration of counter layouts x initial values x call histories across the wrap limit, and of all seek/encrypt histories over boundary positions, against reference counter/keystream sequences",
-         "CTR: for counter width 1 every initial value (256) x 5 layouts x both endiannesses x 7 call patterns, width 2 run to the full 2^16 blocks, "
+         "CTR: for counter width 1 every initial value (256) x 5 layouts x both endiannesses x 113 call patterns (the call crossing the limit starts k bytes before it and asks for b bytes, k and b "
+         "on both sides of the block and of the native 8-block batch), width 2 run to the full 2^16 blocks, "
          "width 3 to 2^24 blocks (thorough), widths 4..16 through the zero crossing and every carry position; every returned byte is checked "
          "against the arithmetic counter sequence (counter blocks recovered by ECB decryption, edges re-checked with the pure-Python cipher) "
          "and OverflowError must occur exactly where a block would repeat. ChaCha20/XChaCha20: every history over {seek(pos), encrypt(n)} with "
@@ -53,9 +54,10 @@ CHECKS = {
          "systematic schedule exploration with iterative preemption bounding: Python-level baton scheduler over real threads for the curve registry, and a TSan-callback shim over the instrumented C code for native calls; plus exhaustive sequential interleavings and copy histories",
          "(1) all 20 interleavings x 7 third-object positions of two 3-step programs on 91 object pairs sharing a native module, and all copy() "
          "histories to depth 4/5 on every class with copy(); (2) a monitor that caller-owned buffers (75 entry points), hash/XOF objects handed to signers and point "
-         "operands are unchanged, and that objects derived from a key (public_key()) share no state with it; (3) concurrent first use of each of the nine curves by 2 and 3 real threads under a baton scheduler (scheduling "
+         "operands are unchanged, that objects derived from a key (public_key()) share no state with it, and that no object follows a caller buffer "
+         "overwritten after the call (38 entry points); object pairs also with long inputs (bulk/tree code paths); (3) concurrent first use of each of the nine curves by 2 and 3 real threads under a baton scheduler (scheduling "
          "points: every line of the registry look-up and its lock), all schedules with <=2 preemptions; (3b) the same scheduler over the library's "
-         "Python glue: 17 workloads (three integer back-ends, RSA/DSA/ECDSA/EdDSA signing, five AEAD modes, hashes, MACs, SP 800-185, KDFs, OAEP) "
+         "Python glue: 19 workloads (first use of ONE shared EdDSA key by both threads, three integer back-ends, RSA/DSA/ECDSA/EdDSA signing, five AEAD modes, hashes, MACs, SP 800-185, KDFs, OAEP) "
          "where two threads use objects of their own and EVERY line of the named library files is a scheduling point, all schedules with one "
          "preemption (two where an execution has at most 100 (320) points); (4) the C sources compiled with "
          "-fsanitize=thread run against a 300-line callback shim instead of the TSan runtime: for 59 native workloads (incl. one point object shared read-only by both threads as left and right operand) the shared read/write sets of "
@@ -73,7 +75,8 @@ CHECKS = {
          "cross-message splices, KW/KWP forgeries built with the reference W function, through decrypt_and_verify and the update/decrypt/verify/hexverify "
          "paths and decryption in place (decrypt(buf, output=buf); verify), plus associated data of 65279..65536 bytes (the boundaries of the modes' length "
          "encodings) with a reduced alphabet. Accept iff the reference tag for the RECEIVED values equals the presented tag; reject must be ValueError. "
-         "2.3 M (quick) / 30 M (thorough) tuples.",
+         Messages of 127..4097 bytes (past the native 8-block batch, 16 blocks, a page) go through every path incl. in place (also SIV) with a "
+         "reduced alphabet. 2.3 M (quick) / 30 M (thorough) tuples.",
          "Trusted: mc/ref/modes.py, aes.py, des.py, chacha.py (self-tested on published vectors). Values from a 4-element alphabet; BLAKE2s comparison-MAC "
          "collisions out of scope.", "DESIGN.md 3/C01"),
  "C02": ("exploration",
@@ -82,7 +85,8 @@ CHECKS = {
          "every message length 0..8 blocks+1 (plus multi-kilobyte sizes), all 256 OCB last-nonce bytes, CCM header boundaries, crafted GCM/EAX counter-wrap "
          "nonces, KW/KWP payload sizes, library-chosen IV/nonce via an entropy tape with a reference peer that decrypts from cipher.iv/nonce alone, 3DES parity "
          "and degenerate keys over all 256 byte values, ChaCha20.seek at positions around the counter word boundaries incl. every ordered pair of two seeks on "
-         "one object. 1.26 M (quick) / 5.6 M (thorough) cases, exhaustive within the grids.",
+         "one object (thorough: 28 positions, 216 pairs, three-seek histories; every length to 16 blocks and 2^k+-1 to 2^20; all Counter layouts). "
+         "1.26 M (quick) / 25 M (thorough) cases, exhaustive within the grids.",
          "Trusted: mc/ref/{aes,des,blowfish,rc4,chacha,modes}.py and the RC2 model in mc/props/_c02_rc2.py; CAST-128 only against RFC 2144 vectors + the "
          "library's own block function under the reference modes.", "DESIGN.md 3/C02"),
  "C03": ("exploration",
@@ -107,7 +111,8 @@ CHECKS = {
          "128 class configurations (66 block-cipher/mode, 6 stream, 13 AEAD, 23 hash, 12 MAC, 8 XOF) plus SIV and TupleHash as vectors: all compositions "
          "into <=3 parts with cuts in the boundary set of the class's cache size, all 2^(L-1) compositions for L<=10/12, joint AAD x message splits, crossed with "
          "bytes/bytearray/read-only and writable memoryview/odd-offset slices and returned/output=/aliased output; after every call caller buffers must be "
-         "bit-identical. 1.5 M (quick) / 8 M (thorough) cases; every case's trace is checked to really differ from the oracle's.",
+         "bit-identical; every cut of a KangarooTwelve message of 3 chunks + 1000 bytes. 1.5 M (quick) / 40 M (thorough; 250 class "
+         "configurations, 4-part segmentations) cases; every case's trace is checked to really differ from the oracle's.",
          "Trusted: the one-shot computation (itself compared with mc/ref/* once per class). Overlapping non-identical buffers are not documented and not exercised.",
          "DESIGN.md 3/C09"),
  "C12": ("exploration",
@@ -115,7 +120,8 @@ CHECKS = {
          "PBKDF2 over 22 PRF choices (C fast path, generic path, custom PRFs) with every dkLen 1..3*hLen+1 and 6x6 password/salt boundary lengths, PBKDF1, HKDF "
          "(all lengths, 255*hLen boundaries, num_keys), scrypt (N x r x p x key_len grid, 2 k refusal probes), bcrypt (every password length 0..72 in thorough, "
          "bcrypt_check on all password x hash pairs, mutated hashes), SP 800-108 counter mode, S2V over all vectors of 0..4 components and over every history of "
-         "up to 5 (6) update/derive calls on one object. Two independent oracles where hashlib allows.", "Trusted: hashlib, mc/ref/{kdf,blowfish,modes,aes}.py.", "DESIGN.md 3/C12"),
+         "up to 5 (6) update/derive calls on one object; scrypt r = 1..16; every KDF with its arguments in bytes, bytearray and memoryview over three "
+         "calls with the same buffers. Two independent oracles where hashlib allows.", "Trusted: hashlib, mc/ref/{kdf,blowfish,modes,aes}.py.", "DESIGN.md 3/C12"),
  "C16": ("exploration",
          "bounded exhaustive differential enumeration across interchangeable implementations (AES-NI on/off, CLMUL on/off, three integer back-ends, three whole-library subprocess configurations)",
          "AES use_aesni True/False over 16 mode variants x key sizes x every length 0..273 x buffer offsets 0..3; GCM use_clmul True/False over nonce x AAD x message "
@@ -135,7 +141,8 @@ CHECKS = {
          "Per curve a 19-28 point alphabet (neutral, generator from the registry and freshly constructed, generator reached by arithmetic with z != 1, small and "
          "seeded multiples, all torsion points of the Edwards curves, the point with x = 0 where it exists): all ordered pairs for + += == !=, every point for "
          "negation/doubling/copy/xy/is_point_at_infinity, 36-41 boundary scalars (0, n-1, n, n+1, 2n, 2^bits, 2^(bits+9)+5, window patterns ...) x every point in "
-         "four operator forms with the blinding seed owned through a seam, in-place operator histories to depth 2-4 with prefix replay, EccXPoint over every "
+         "four operator forms with the blinding seed owned through a seam, in-place operator histories (incl. reading the coordinates and set()) to "
+         "depth 2-4 with prefix replay, EccXPoint over every "
          "low-order u and its aliases, all 16 key_agreement argument subsets from both parties' view, RFC 7748 iterated vectors; scalars 2^(64w)-1 filling "
          "w = 1..words+4 machine words (carry out of the blinded scalar).",
          "Trusted: mc/ref/ec.py (curve constants self-validated at import; Wycheproof-checked) and the exact affine Montgomery arithmetic in mc/props/_c06_ref.py.",
@@ -172,7 +179,8 @@ CHECKS = {
          "product format x pkcs/use_pkcs8 x passphrase x 84 protection strings x prot_params x compress (4.6 k / 19 k artefacts): re-import gives identical "
          "components, three wrong passphrases are refused, and an independent reader that never imports the library parses every artefact (canonical DER "
          "re-serialisation, OIDs, parameters, PBES2 parameters as requested, RFC 8410/5915 structure). Equality: all ordered pairs of 127 (231) key objects incl. "
-         "public halves, copies, re-imports and near-miss variants under == and !=.",
+         "public halves, copies, re-imports, RFC 7748 keys imported from non-canonical encodings and near-miss variants under == and != "
+         "(keys of different types must compare unequal, not raise). The caller's prot_params dictionary is unchanged by every export.",
          "Trusted: mc/props/_c08_ref.py over mc/ref/{der,kdf,modes,aes,des,ec}.py and hashlib.", "DESIGN.md 3/C08"),
  "C14": ("exploration",
          "bounded exhaustive enumeration of operand pairs x operations per integer back-end against exact Python int arithmetic; primality on every integer below a bound and on computed pseudoprime families",
@@ -187,7 +195,7 @@ CHECKS = {
          "complete enumeration of the entropy-tape tree (every byte value at every draw, exact rational weights) up to a stated rejection depth; boundary tapes at cryptographic sizes",
          "The entropy source is a tape: every request is a choice point over all 256^n answers. For Integer.random (1..16 bits) and random_range (the full product of "
          "min 0..3 x width 1..300, three back-ends), StrongRandom getrandbits/randrange/randint/choice/shuffle/sample and the legacy number functions the "
-         "complete tree is enumerated (20 M executions quick, 389 M thorough): outcomes in bounds, identical exact weight for every outcome, the subtree after "
+         "complete tree is enumerated (20 M executions quick, 562 M thorough): outcomes in bounds, identical exact weight for every outcome, the subtree after "
          "each rejection identical to a fresh attempt (=> exact uniformity of the unbounded sampler), randfunc honoured. At cryptographic sizes (EC scalars on "
          "nine curves, DSA x, FIPS-mode DSA/ECDSA nonces, RSA generation, blinding) boundary tapes 0..0, bound-1, bound, bound+1, F..F with a reference sampler.",
          "Trusted: the 10-line reference rejection sampler; mc/ref/ec.py, dsa.py for the consumers.", "DESIGN.md 3/C18"),
